@@ -2,6 +2,7 @@ package main
 
 import (
 	"fmt"
+	"go/types"
 	"sort"
 )
 
@@ -367,4 +368,76 @@ func (x *Exec) reportRace(msg string) {
 	}
 	x.raceLog = append(x.raceLog, msg)
 	x.violation("race", msg, "")
+}
+
+// ---------- channels ----------
+
+func (x *Exec) chanSend(c *ChanV, v Val, site string) {
+	x.mainGor()
+	x.yield()
+	if c == nil {
+		x.block(func() bool { return true }, "send on nil channel")
+	}
+	if c.closed {
+		panic(panicV{msg: "send on closed channel at " + site})
+	}
+	me := x.cur
+	if c.cap > 0 {
+		x.block(func() bool { return len(c.buf) >= c.cap && !c.closed }, "chan send")
+		if c.closed {
+			panic(panicV{msg: "send on closed channel at " + site})
+		}
+		c.buf = append(c.buf, chanItem{v: v, vc: me.vc.copy()})
+		me.vc[me.id]++
+		return
+	}
+	// unbuffered: deposit and wait until a receiver has taken it
+	c.buf = append(c.buf, chanItem{v: v, vc: me.vc.copy()})
+	me.vc[me.id]++
+	c.sent++
+	my := c.sent
+	x.block(func() bool { return c.taken < my && !c.closed }, "chan send (unbuffered)")
+}
+
+func (x *Exec) chanRecv(c *ChanV, commaOk bool, t types.Type, site string) Val {
+	x.mainGor()
+	x.yield()
+	if c == nil {
+		x.block(func() bool { return true }, "receive from nil channel")
+	}
+	x.block(func() bool { return len(c.buf) == 0 && !c.closed }, "chan receive")
+	var et types.Type
+	if commaOk {
+		et = t.(*types.Tuple).At(0).Type()
+	} else {
+		et = t
+	}
+	if len(c.buf) == 0 {
+		x.cur.vc.join(c.cvc)
+		if commaOk {
+			return TupleV{x.zero(et), cbool(false)}
+		}
+		return x.zero(et)
+	}
+	it := c.buf[0]
+	c.buf = c.buf[1:]
+	c.taken++
+	x.cur.vc.join(it.vc)
+	if commaOk {
+		return TupleV{it.v, cbool(true)}
+	}
+	return it.v
+}
+
+func (x *Exec) chanClose(c *ChanV, site string) {
+	x.mainGor()
+	if c == nil {
+		panic(panicV{msg: "close of nil channel at " + site})
+	}
+	if c.closed {
+		panic(panicV{msg: "close of closed channel at " + site})
+	}
+	c.closed = true
+	c.cvc.join(x.cur.vc)
+	x.cur.vc[x.cur.id]++
 }
